@@ -156,14 +156,26 @@ def run(ctx):
     ld = meth('_load_data')
     br = None
     for i in ld.nodes(ast.If):
-        if 'self.spike_clusters == self.spike_templates' in unparse(i.test):
+        asg = {unparse(a.targets[0]) for a in list(i.body) + list(i.orelse) if isinstance(a, ast.Assign)}
+        if 'self.sparse_clusters' in asg:
             br = i
     if br is None:
         ctx.violated('C08.A4', ld, '_load_data', '_load_data no longer distinguishes curated from uncurated assignments')
     else:
         t = unparse(br.test).replace(' ', '')
-        ctx.check(t == 'notnp.all(self.spike_clusters==self.spike_templates)andself.sparse_templates.colsisNone', 'C08.A4', ld, br.test,
-                  'merged cluster waveforms are computed iff the assignments differ and the templates are dense', 'the curated branch is taken on `%s`' % unparse(br.test))
+        same = ('np.all(self.spike_clusters==self.spike_templates)', 'np.array_equal(self.spike_clusters,self.spike_templates)', '(self.spike_clusters==self.spike_templates).all()')
+        good = tuple('not%sandself.sparse_templates.colsisNone' % x for x in same) + tuple('self.sparse_templates.colsisNoneandnot%s' % x for x in same)
+        if t in good:
+            ctx.holds('C08.A4', ld, 'merged cluster waveforms are computed iff the per-spike assignments differ and the templates are dense', br.test)
+        elif 'cluster_ids' in t or 'template_ids' in t or 'n_clusters' in t or 'n_templates' in t:
+            ctx.violated('C08.A4', ld, br.test, 'the curated branch is decided on `%s`, which compares the SETS of ids: moving spikes between existing clusters (no new id) is treated as '
+                         'uncurated and the cluster waveforms / merge map stay those of the templates' % unparse(br.test))
+        elif not any(x in t for x in same):
+            ctx.violated('C08.A4', ld, br.test, 'the curated branch is taken on `%s`, not on a per-spike comparison of cluster and template assignments' % unparse(br.test))
+        elif 'colsisNone' not in t:
+            ctx.violated('C08.A4', ld, br.test, 'the curated branch is taken for sparse templates too (`%s`)' % unparse(br.test))
+        else:
+            ctx.undecided('C08.A4', ld, 'curation test `%s` not recognised' % unparse(br.test), br.test)
         b = {unparse(a.targets[0]).replace(' ', ''): unparse(a.value).replace(' ', '') for a in br.body if isinstance(a, ast.Assign)}
         o = {unparse(a.targets[0]).replace(' ', ''): unparse(a.value).replace(' ', '') for a in br.orelse if isinstance(a, ast.Assign)}
         okb = b.get('self.sparse_clusters') == 'self.cluster_waveforms()' and b.get('self.n_clusters') in ('self.spike_clusters.max()+1', 'np.max(self.spike_clusters)+1') and \
